@@ -257,6 +257,7 @@ struct Stats {
 	fork_blocks_checked: u64,
 	twin_steps: u64,
 	late_on_fork: u64,
+	bad_blocks_on_an_ancestor_of_the_head: u64,
 }
 
 fn apply_bad(
@@ -408,8 +409,14 @@ fn run_history(run: &Run, idx: u64, h: &mut Hist, sc: &Scratch, stats: &mut Stat
 						.cloned()
 						.filter(|x| !h.ledger.is_ancestor(x, &head))
 						.collect();
+					// ... or on a block of the best chain BELOW the head: the node then only rewinds (nothing is
+					// re-applied before the bad block is judged), a path of its own through the working state
+					let below_head: Vec<Hash> = h.ledger.ancestry(&head).into_iter().rev().skip(1).take(3).filter(|x| *x != h.genesis.hash()).collect();
 					let (parent, on_fork) = if !fork_parents.is_empty() && prng.chance(1, 3) {
 						(*prng.pick(&fork_parents), true)
+					} else if !below_head.is_empty() && prng.chance(1, 2) {
+						stats.bad_blocks_on_an_ancestor_of_the_head += 1;
+						(*prng.pick(&below_head), true)
 					} else {
 						(head, false)
 					};
@@ -621,6 +628,7 @@ fn main() {
 			fork_blocks_checked: 0,
 			twin_steps: 0,
 			late_on_fork: 0,
+			bad_blocks_on_an_ancestor_of_the_head: 0,
 		};
 		let deadline = run.tier.pick(300.0, 1200.0);
 		for i in 0..total {
@@ -650,6 +658,7 @@ fn main() {
 		run.count("valid_losing_fork_blocks_checked", stats.fork_blocks_checked);
 		run.count("twin_lockstep_deliveries", stats.twin_steps);
 		run.count("bad_blocks_on_fork_parent", stats.late_on_fork);
+		run.count("bad_blocks_on_an_ancestor_of_the_head", stats.bad_blocks_on_an_ancestor_of_the_head);
 		drop(sc);
 		run.finish_worker();
 	}
@@ -714,6 +723,7 @@ fn main() {
 		let n = run.counter(&format!("rejected.{}", c)) + run.counter(&format!("rejected.{}@fork", c));
 		run.require(&format!("rejected.{}(+@fork)", c), n, run.tier.pick(1, 8));
 	}
+	run.require("bad blocks on an ancestor of the head (rewind only, nothing re-applied)", run.counter("bad_blocks_on_an_ancestor_of_the_head"), run.tier.pick(20, 200));
 	for c in ["header_batch_kth_bad", "header_batch_kth_bad_prev_root", "header_batch_kth_bad_prev_root.not_overtaking_header_head", "tx_spends_spent_output", "read_time_truncated_block"] {
 		run.require(&format!("rejected.{}", c), run.counter(&format!("rejected.{}", c)), run.tier.pick(2, 20));
 	}
